@@ -21,7 +21,12 @@ RULE = ("(a) exhaustive: one target, 0-2 inputs with mtimes in {1,2,3}, 0-2 outp
         "outputs exist, max input mtime <= min output mtime, spec unchanged when hashing); the set submitted by a run "
         "equals the shouldrun set; regrouping/respelling the same path sets leaves the status map unchanged. "
         "Non-trivial: the decided target has >=1 input and >=1 output, all its files exist, its dependencies are "
-        "complete (so the timestamp comparison decides). Distinct = SHA-1 of canonical case JSON.")
+        "complete (so the timestamp comparison decides). "
+        "CLI tier also: per-target working directories (targets with one are made from a template), spec "
+        "hashing switched off through `gwf config set use_spec_hashes no|false|0`, and the invocation styles "
+        "of project.Project (sub-directory, -f from elsewhere, named workflow object next to a decoy, "
+        "symlinked workflow file). "
+        "Distinct = SHA-1 of canonical case JSON.")
 ASSUMPTIONS = [
     "mtimes are small integers (exact ties frequent); sub-second behaviour of real filesystems is not varied",
     "API tier uses an in-memory filesystem/backend implementing gwf's documented fs/backend interface",
